@@ -202,8 +202,10 @@ class Interp:
             if b <= 0 or a < 0:
                 raise OutOfDomain("% outside a>=0, b>0")
             r = a % b
-        if t == UINT and r < 0:
-            raise OutOfDomain("uint underflow")
+        if t == UINT:
+            if r < 0 or r > 0xFFFFFFFF:
+                raise OutOfDomain("uint out of range")
+            return r
         return self._chk_int(r)
 
     def binop(self, op, lt, rt, a, b):
@@ -293,7 +295,9 @@ class Interp:
         self.tick()
         k = type(e)
         if k is IntLit:
-            return e.value
+            # a literal is an intermediate value like any other: outside the signed 32-bit range the
+            # statements do not say what it means
+            return self._chk_int(e.value)
         if k is FloatLit:
             return f32(e.value) if self.f32_mode else e.value
         if k is Var:
